@@ -230,15 +230,15 @@ def c06_3(ctx):
         ok = clause_implies(cl, lit_cmp(ctx, sl, 'label_scope.value < self.type.value', res)) and [unparse(a) for a in up[0].args[:2]] == [lab, sl.call_params[1].arg]
     ctx.check(ok, 'set:routing-upwards', sl.site(up[0]) if up else sl.site(), 'a label of a wider kind is handed to the parent scope unchanged',
               unparse(up[0]) if up else 'no parent call')
-    # final else aborts: label too low
-    top = [n for n in sl.node.body if isinstance(n, ast.If) and 'label_scope.value' in unparse(n.test)]
+    # label too low: an exit reached exactly when the kind is neither wider than nor equal to this scope's (whatever the nesting
+    # or guard-clause spelling); that such a label cannot complete normally already follows from the three rules above
     ok = False
-    if top:
-        cur = top[0]
-        while cur.orelse and isinstance(cur.orelse[0], ast.If):
-            cur = cur.orelse[0]
-        ok = bool(cur.orelse) and body_only_aborts(cur.orelse)
-    ctx.check(ok, 'set:too-low-rejected', sl.site(), 'a local label with no enclosing non-local label is rejected', 'the routing chain has no aborting else')
+    for a in aborts:
+        cl = facts_at(ctx, sl, a, res)
+        if clause_implies(cl, lit_cmp(ctx, sl, 'label_scope.value >= self.type.value', res)) and clause_implies(cl, lit_cmp(ctx, sl, 'label_scope != self.type', res)) \
+                and 'self._labels' not in describe_facts(cl):
+            ok = True
+    ctx.check(ok, 'set:too-low-rejected', sl.site(), 'a local label with no enclosing non-local label is rejected', 'no exit under `kind neither wider than nor equal to this scope`')
 
 
 def c06_4(ctx):
@@ -308,7 +308,7 @@ def c06_4(ctx):
         if hit is None:
             ctx.err(f'directive:{cname}', fac.site(), f'{pat} is matched by DirectiveLine.factory', 'block not found')
             continue
-        rets = [r for r in ast.walk(hit) if isinstance(r, ast.Return)]
+        rets = [r for b_ in hit.body for r in ast.walk(b_) if isinstance(r, ast.Return)]
         ok = bool(rets) and all(isinstance(r.value, ast.Call) and unparse(r.value.func) == cname for r in rets) \
             and len([s for s in hit.body if isinstance(s, (ast.If,))]) == 0
         ctx.check(ok, f'directive:{cname}', fac.site(hit), f'every line matching {pat} becomes a {cname} (which ends the local region)',
